@@ -232,6 +232,13 @@ def run(pid, tier, seed):
         cross=dict(collections.Counter(
             ("honest" if c["tampered"] == 0 else "moved") + ("/t<n" if c["t"] < c["n"] else "/t=n") +
             ("/accepted" if c["accepted"] else "/rejected") for c in cases if c["kind"] == "cross")),
+        # large point sets / large points (scalar level, compared with the model as exact integers): the product of the points
+        # of a set passes 2^63 from 21 points on, near 2^16 from five points on
+        largest_point_set=max([len(c["pts"]) for c in cases if c["kind"] in ("lag", "rec")] or [0]),
+        largest_point=max([max([abs(x) for x in c["pts"]] or [0]) for c in cases if c["kind"] in ("lag", "rec")] or [0]),
+        largest_product_bits=max([sum(abs(int(x)).bit_length() for x in c["pts"] if x) for c in cases
+                                  if c["kind"] in ("lag", "rec") and not c["panic"] and max([abs(x) for x in c["pts"]] or [0]) < 2 ** 32] or [0]),
+        point_sets_of_21_or_more=sum(1 for c in cases if c["kind"] in ("lag", "rec") and len(c["pts"]) >= 21),
         dkg_instance_reuse=dict(collections.Counter(
             "%s run %d %s" % (c["pkg"], c["reuse_run"], "honest" if c["tampered"] == 0 else "moved key")
             for c in cases if c["kind"] == "dkg" and c.get("reuse_group"))),
